@@ -52,9 +52,32 @@ static std::string snapjson(const ak::ContentPtr& c) {
 // ------------------------------------------------------------------ ArrayBuilder
 // one command: {"c":"null"|"bool"|"int"|"real"|"str"|"bytes"|"beginlist"|"endlist"|"begintuple"|"index"|"endtuple"|
 //               "beginrecord"|"field"|"endrecord"|"clear"|"snapshot", "x":..., "name":..., "check":0/1}
+// the arrays "append" commands take elements from (Builder.tla: SrcVals)
+static ak::ContentPtr builder_source(const std::string& name) {
+  static std::map<std::string, ak::ContentPtr> made;
+  auto it = made.find(name);
+  if (it != made.end()) return it->second;
+  const char* text =
+      name == "idx64" ? "{\"c\":\"Indexed\",\"w\":\"64\",\"i\":[2,0,1],\"x\":{\"c\":\"Numpy\",\"dt\":\"i64\",\"d\":[10,20,30]}}" :
+      name == "idx32" ? "{\"c\":\"Indexed\",\"w\":\"32\",\"i\":[2,0,1],\"x\":{\"c\":\"Numpy\",\"dt\":\"i64\",\"d\":[10,20,30]}}" :
+      name == "opt" ? "{\"c\":\"IndexedOption\",\"w\":\"64\",\"i\":[-1,1,0],\"x\":{\"c\":\"Numpy\",\"dt\":\"i64\",\"d\":[5,6]}}" :
+      name == "lists" ? "{\"c\":\"ListOffset\",\"w\":\"64\",\"o\":[1,2,2,4],\"x\":{\"c\":\"Numpy\",\"dt\":\"i64\",\"d\":[1,2,3,4]}}" : nullptr;
+  if (text == nullptr) throw HarnessError("builder source " + name);
+  rj::Document d;
+  d.Parse(text);
+  Session S;
+  ak::ContentPtr out = mklayout(d, S);
+  made[name] = out;
+  return out;
+}
+
 static void builder_cmd(ak::ArrayBuilder& b, const JV& c, bool capi) {
   std::string k = gets(c, "c", "");
   void* vb = reinterpret_cast<void*>(&b);
+  if (k == "append") {                 // (no extern "C" counterpart takes an array: always the C++ method)
+    b.append(builder_source(gets(c, "src", "")), geti(c, "at", 0));
+    return;
+  }
   if (capi) {
     // the extern "C" surface used by the Numba lowering (returns 1 on failure)
     uint8_t err = 0;
